@@ -254,7 +254,10 @@ class time_limit:
         # on how loaded the machine is (a wall-clock limit produced spurious timeouts, and
         # thereby irreproducible "violations", when 40+ processes shared 16 cores)
         self._old = signal.signal(signal.SIGPROF, handler)
-        signal.setitimer(signal.ITIMER_PROF, self.seconds)
+        # periodic after the first expiry: scipy's LSODA can swallow an exception raised
+        # inside its callback and keep iterating (observed with a mutant), so one raise is
+        # not always enough; the worker-level CPU watchdog of mc/pool.py is the last resort
+        signal.setitimer(signal.ITIMER_PROF, self.seconds, 1.0)
 
     def __exit__(self, *exc):
         import signal
